@@ -650,11 +650,18 @@ class GenericDefinition(Unit):
                     return
                 object.__setattr__(self, name, value)
         self.GPacket, self.AbsDef = GPacket, AbsDef
-        for fn, label in ((raw(Packet, 'write_fields'), 'write'), (raw(Packet, 'read'), 'read')):
-            keys = loop_keys(fn, 'minecraft.networking.packets.packet.Packet.' + fn.__name__, kind=ast.For)
-            outer = keys[0]
-            I.loop_specs[outer] = ForSpec('definition-' + label, lambda I_, it: it.n, lambda I_, it, j: AbsField(j),
-                                          lambda I_, fr, j: unit.count == j, lambda I_, fr, j: setattr(unit, 'count', j))
+        from .common import reachable_loops, ByIterable
+        keys = set()
+        for fn in (raw(Packet, 'write_fields'), raw(Packet, 'read')):
+            keys |= set(reachable_loops(fn, Packet, kind=ast.For, depth=1))
+        if not keys:
+            raise Unsupported('contract does not fit the code any more: no loop over the definition in Packet.read / write_fields')
+        # the contract belongs to "the loop over the definition list", wherever it is written (inline in both methods or
+        # in a shared helper); loops over anything else (the items of one field) run normally
+        spec = ForSpec('definition', lambda I_, it: it.n, lambda I_, it, j: AbsField(j),
+                       lambda I_, fr, j: unit.count == j, lambda I_, fr, j: setattr(unit, 'count', j))
+        for k in keys:
+            I.loop_specs[k] = ByIterable(lambda it: isinstance(it, AbsDef), spec)
 
     def run(self, I):
         E = I.E
